@@ -20,6 +20,8 @@ pub const FAULT_KINDS: &[&str] = &[
     "r_eof_premature",
     "r_truncated",
     "r_chunk_limited",
+    "w_gathered_write",
+    "r_would_block_after_end",
     "crash_point",
     "eintr_then_short",
     "fault_in_header",
@@ -50,6 +52,8 @@ pub struct StreamStats {
     pub bytes: u64,
     /// the reader returned Ok(0) because the stream (or its truncated prefix) ended
     pub hit_end: bool,
+    /// a call was made after every byte had been delivered and was answered with WouldBlock (strict_end)
+    pub called_after_end: bool,
     last_was_eintr: bool,
 }
 
@@ -149,6 +153,20 @@ impl io::Write for SimWriter<'_> {
     fn flush(&mut self) -> io::Result<()> {
         Ok(())
     }
+
+    fn write_vectored(&mut self, bufs: &[io::IoSlice<'_>]) -> io::Result<usize> {
+        if !self.plan.gather {
+            // std's default: the first non-empty slice
+            let buf = bufs.iter().find(|b| !b.is_empty()).map_or(&[][..], |b| &**b);
+            return self.write(buf);
+        }
+        // a gathering device: the slices are one logical buffer, faults apply to it as a whole
+        let all: Vec<u8> = bufs.iter().flat_map(|b| b.iter().copied()).collect();
+        if bufs.len() > 1 && !all.is_empty() {
+            self.st.faults.hit("w_gathered_write");
+        }
+        self.write(&all)
+    }
 }
 
 /// `io::Read` over a byte slice.
@@ -174,6 +192,7 @@ impl<'p, 'd> SimReader<'p, 'd> {
     pub fn begin_op(&mut self) {
         self.st.terminal = false;
         self.st.hit_end = false;
+        self.st.called_after_end = false;
     }
     /// bytes that can still be delivered from the current position
     pub fn remaining(&self) -> usize {
@@ -189,19 +208,30 @@ impl io::Read for SimReader<'_, '_> {
     fn read(&mut self, buf: &mut [u8]) -> io::Result<usize> {
         let call = self.st.calls;
         self.st.calls += 1;
-        if buf.is_empty() {
-            return Ok(0);
-        }
         let pos = self.pos as u64;
-        let was_eintr = std::mem::take(&mut self.st.last_was_eintr);
         let limit = match self.plan.capacity {
             Some(c) => (c as usize).min(self.data.len()),
             None => self.data.len(),
         };
+        if buf.is_empty() {
+            if self.plan.strict_end && limit == self.data.len() && self.pos >= limit {
+                self.st.faults.hit("r_would_block_after_end");
+                self.st.called_after_end = true;
+                return Err(io::ErrorKind::WouldBlock.into());
+            }
+            return Ok(0);
+        }
+        let was_eintr = std::mem::take(&mut self.st.last_was_eintr);
         if self.eof_sticky {
             return Ok(0);
         }
         let avail = limit.saturating_sub(self.pos);
+        if avail == 0 && self.plan.strict_end && limit == self.data.len() {
+            // a drained non-blocking source: nothing more will come, and asking again is answered with WouldBlock
+            self.st.faults.hit("r_would_block_after_end");
+            self.st.called_after_end = true;
+            return Err(io::ErrorKind::WouldBlock.into());
+        }
         if avail == 0 {
             // end of the (possibly truncated) stream: not an injected terminal
             // fault by itself -- the oracle decides from the byte counts whether
